@@ -93,3 +93,9 @@ package chain
 //@   ensures err == nil && !result0.Success ==> len(ts.ops) == at(charged, len(ts.ops)) && tstate.RI(ts) && (forall j int :: 0 <= j && j < len(ts.ops) ==> ts.ops[j] == at(charged, ts.ops[j]))
 // an error is returned only before any action ran (units/fee computation or the deduction failed)
 //@   ensures err != nil ==> isnil(result0)
+
+// pure getters of a parsed transaction (used by internal/chain and x/fdsmr contracts)
+//@ func (*Transaction).GetSponsor
+//@   pure
+//@ func (*Transaction).Size
+//@   pure
